@@ -131,8 +131,11 @@ Print Assumptions C02_required_variables.
    translator on every run, and so are the two places AND / ElseIf apply the check at), as long as `all_seen` is off - and it stays off: the set is never asked about an empty assignment *)
 Theorem C02_duplicate_check_is_seenset : forall R s b, ss_all s = false ->
   is_duplicate R s b = (fst (dup_check R (ss_seen s) b), {| ss_seen := snd (dup_check R (ss_seen s) b); ss_all := false |}) /\
-  dedup_site_as_modelled = true /\ and_dedup_site = SiteFalseLeft /\ else_dedup_site = SiteRightTrue.
-Proof. intros R s b A. split; [exact (is_duplicate_dup_check R s b A) | split; [exact dedup_site_pinned | exact dedup_sites_as_modelled]]. Qed.
+  dedup_site_as_modelled = true /\ (and_dedup_site = SiteFalseLeft /\ else_dedup_site = SiteRightTrue) /\
+  comparator_right_first_iff_bound = true.
+Proof.
+  intros R s b A. split; [exact (is_duplicate_dup_check R s b A) | split; [exact dedup_site_pinned | split; [exact dedup_sites_as_modelled | exact operand_order_as_modelled]]].
+Qed.
 Print Assumptions C02_duplicate_check_is_seenset.
 
 (* non-vacuity of the de-duplication: or_(x.a == 5, x.a < y.a) selecting x: two assignments share the projection, the second row of
